@@ -117,6 +117,37 @@ Section C05.
             <| pc ::= fun old => L ++ old |> <| pc_size ::= fun s => N.of_nat (length L) + s |>, ONormal).
   Proof. reflexivity. Qed.
 
+  (** ** C05 item 5 (local): an already finalized object is skipped; a finalizer entry is logged
+      with the flag already set *)
+  Theorem finalize_list_skips_finalized rec L g rest any old_f m :
+    needs_fin (hdr_of m g) = false ->
+    step_finalize_list K P rec L (g :: rest) any old_f m = rec (KFinalizeList L rest any old_f) m.
+  Proof. intros H. unfold step_finalize_list. rewrite H. reflexivity. Qed.
+  Theorem finalize_list_sets_flag_first rec L g rest any old_f m :
+    needs_fin (hdr_of m g) = true -> is_map m g = false ->
+    exists m1, m1 = uhdr g (set_fin true) m /\
+      step_finalize_list K P rec L (g :: rest) any old_f m =
+      let '(m2, r) :=
+        let m' := emit (ECb KFin g (cur_flags K m1)) m1 in
+        let '(m'', boom) := tick KFin m' in
+        if boom then (m'', raise m'')
+        else match get m'' g with
+             | Some x => rec (KScript (Some g) (oscript P (c_fin (class_of P (o_cls x))))) m''
+             | None => (m'', ONormal)
+             end in
+      match r with
+      | ONormal => rec (KFinalizeList L rest true old_f) m2
+      | _ => (unmark_all L (m2 <| st_finalizing := old_f |>), r)
+      end.
+  Proof.
+    intros H Hm. eexists. split; [reflexivity|]. unfold step_finalize_list. rewrite H.
+    assert (Hm' : is_map (uhdr g (set_fin true) m) g = false).
+    { unfold is_map in *. destruct (get m g) as [x|] eqn:Hx.
+      - unfold uhdr. erewrite SafeFinalPropsA.getA_upd_eq by exact Hx. exact Hm.
+      - unfold uhdr, upd, get in *. cbn. rewrite list_lookup_alter. unfold id in *. rewrite Hx. reflexivity. }
+    cbv zeta. rewrite Hm'. reflexivity.
+  Qed.
+
   (** ** C05 item 9: objects created while a finalizer runs are born finalized *)
   Theorem box_alloc_in_finalizer o m x :
     get m o = Some x -> k_fin K = true -> st_finalizing m = true ->
@@ -236,5 +267,27 @@ Section C14.
           -- destruct (rec (KStore r _) _) as [m15 r3] eqn:Est. destruct r3; cbn [fst snd]; try discriminate.
              intros _. right; right. eexists _, _. exact Est.
         * intros _. left. eexists. reflexivity.
+  Qed.
+
+  (** ** C14 item 11 (local): the state in which [new_cyclic] stores the new handle.  After the
+      closure returned (object still uninitialised, strong count 0) the value is initialised, the
+      count becomes 1, the parameter is dropped: the object handed to [KStore] is live with
+      strong count exactly 1 *)
+  Definition cyc_publish (o : id) (m : machine) : machine :=
+    weak_drop (WTo o) (uhdr o (fun h => default h (inc_rc h)) (upd o (fun x => x <| o_vst := VLive |>) m) <| wparam ::= tail |>).
+
+  Theorem cyc_publish_state o m x : get m o = Some x -> h_rc (o_hdr x) = 0 ->
+    exists x', get (cyc_publish o m) o = Some x' /\ o_vst x' = VLive /\ h_rc (o_hdr x') = 1 /\ o_box x' = o_box x.
+  Proof.
+    intros Hx Hrc. unfold cyc_publish.
+    assert (H1 : get (upd o (fun x => x <| o_vst := VLive |>) m) o = Some (x <| o_vst := VLive |>))
+      by (apply SafeFinalPropsA.getA_upd_eq; exact Hx).
+    assert (H2 : get (uhdr o (fun h => default h (inc_rc h)) (upd o (fun x => x <| o_vst := VLive |>) m) <| wparam ::= tail |>) o
+                 = Some (x <| o_vst := VLive |> <| o_hdr ::= fun h => default h (inc_rc h) |>)).
+    { unfold uhdr. change (get (?mm <| wparam ::= tail |>) o) with (get mm o).
+      apply SafeFinalPropsA.getA_upd_eq. exact H1. }
+    destruct (SafeGlue.weak_drop_keep (WTo o) _ o _ H2) as (y & Hy & (Hh & Hv & Hb & _)).
+    exists y. split; [exact Hy|]. split; [rewrite Hv; reflexivity|]. split; [|rewrite Hb; reflexivity].
+    rewrite Hh. cbn. unfold inc_rc. rewrite Hrc. reflexivity.
   Qed.
 End C14.
